@@ -74,12 +74,23 @@ def ser_key(o):
     return json.dumps({k: v for k, v in o.items() if k != "sink"}, sort_keys=True)
 
 
-def make_session(rng, k):
-    g = casgen.CasGen(rng, n_types=rng.randint(1, 6), n_fs=rng.randint(1, 9), xmi_safe=True).build()
+def make_session(rng, g, desc):
     ops = list(g.sb.ops)
     h = g.views["_InitialView"]
     origin = "api"
     nh = g.sb.n_h
+    # type systems loaded from XML and merged (their registries are filled in toposort / set order)
+    ts_ops = []
+    if desc is not None:
+        layout = {"order": rng.sample(range(len(desc)), len(desc))} if len(desc) > 1 else None
+        d2 = [desc[i] for i in layout["order"]] if layout else desc
+        ops.append({"op": "ts.load_xml", "desc": d2})
+        t_xml = g.sb.n_ts
+        ops.append({"op": "ts.merge", "inputs": [t_xml, g.ts]})
+        for t in (t_xml, t_xml + 1):
+            for sink in ("none", "str", "path"):
+                ts_ops.append({"op": "raw.tsxml", "ts": t, "sink": sink})
+            ts_ops.append({"op": "ts.to_xml", "ts": t})
     r = rng.random()
     views = list(g.views.values())
     if r < 0.25:
@@ -96,7 +107,8 @@ def make_session(rng, k):
     marks = {}
     marks["A"] = (len(ops), len(ops) + len(obs) + len(slots))
     ops += obs + slots
-    s1 = ser_ops(rng, h, g.ts)
+    s1 = ser_ops(rng, h, g.ts) + ts_ops
+    rng.shuffle(s1)
     marks["S1"] = (len(ops), len(ops) + len(s1))
     ops += s1
     marks["B"] = (len(ops), len(ops) + len(obs) + len(slots) + 1)
@@ -125,7 +137,7 @@ def model_ops(ops):
         elif o["op"] == "raw.json":
             out.append({"op": "json.save", "h": o["h"], "mode": o["mode"]})
         elif o["op"] == "raw.tsxml":
-            out.append({"op": "cas.views", "h": o["h"]})      # no state change in the model
+            out.append({"op": "cas.views", "h": o["h"]} if "h" in o else {"op": "ts.to_xml", "ts": o["ts"]})      # no state change in the model
         else:
             out.append(o)
     return out
@@ -143,7 +155,11 @@ def run(ctx, out, budget):
     rng = ctx.rng(0)
     n = 40 if budget == "quick" else 600
     seeds = SEEDS_QUICK if budget == "quick" else SEEDS_THOROUGH
-    scen = [make_session(rng, k) for k in range(n)]
+    gens = [casgen.CasGen(rng, n_types=rng.randint(1, 6), n_fs=rng.randint(1, 9), xmi_safe=True).build() for _ in range(n)]
+    # the descriptors of the generated type systems (stage A, this process), to load them back from XML
+    stage_a = sessions.run_impl_sessions([list(g.sb.ops) + [{"op": "ts.to_xml", "ts": g.ts}] for g in gens])
+    descs = [io_[-1].get("ok") for io_ in stage_a]
+    scen = [make_session(rng, g, d) for g, d in zip(gens, descs)]
     sess = [s[0] for s in scen]
     from concurrent.futures import ThreadPoolExecutor
     with ThreadPoolExecutor(max_workers=min(len(seeds), 12)) as ex:
